@@ -202,7 +202,7 @@ Proof.
 Qed.
 
 (* vam's handler: needs the page-count invariant GranTlsf.GInv (allocation kinds 1..5,
-   granularity <= 65536) to know that the table of an emptied block is all zero again *)
+   granularity <= 2^32) to know that the table of an emptied block is all zero again *)
 Theorem tlsf_vam_empty_is_init gr size ops :
   cfg2_ok gr size -> 1 <= gr <= 65536 -> Forall op_ok ops -> Forall op_kind_ok ops ->
   let t := run (tlsf_init HVam gr size) ops in
@@ -307,13 +307,13 @@ Lemma vcount_fold g L :
   pow2 (g_g g) ->
   forall Ldone cnts,
   length cnts = length (g_regions g) ->
-  (forall n, (n < length cnts)%nat -> nth n cnts 0 = tcount (g_g g) (Z.of_nat n) Ldone mod 65536) ->
+  (forall n, (n < length cnts)%nat -> nth n cnts 0 = tcount (g_g g) (Z.of_nat n) Ldone mod 4294967296) ->
   (forall s, In s L -> exists r1 r2,
        region_at g (start_slot g (s_off s)) = Some r1 /\ region_at g (end_slot g (s_off s) (s_size s)) = Some r2 /\
        1 <= snd r1 /\ 1 <= snd r2) ->
   exists cnts', fold_left (vcount_one g) (pairs L) (Some (cnts, true)) = Some (cnts', true) /\
                 length cnts' = length cnts /\
-                forall n, (n < length cnts')%nat -> nth n cnts' 0 = tcount (g_g g) (Z.of_nat n) (Ldone ++ L) mod 65536.
+                forall n, (n < length cnts')%nat -> nth n cnts' 0 = tcount (g_g g) (Z.of_nat n) (Ldone ++ L) mod 4294967296.
 Proof.
   intros Hp. induction L as [|s L IH]; intros Ldone cnts Hlen Hinv Hall.
   - exists cnts. rewrite app_nil_r. cbn. auto.
@@ -322,17 +322,17 @@ Proof.
     destruct (Z.leb_spec 1 (snd r1)); [|lia]. cbn [andb].
     destruct (region_at_range _ _ _ Hr1) as (Hs0 & Hsl). destruct (region_at_range _ _ _ Hr2) as (He0 & Hel).
     set (sl := start_slot g (s_off s)) in *. set (el := end_slot g (s_off s) (s_size s)) in *.
-    set (inc := fun c : Z => (c + 1) mod 65536).
+    set (inc := fun c : Z => (c + 1) mod 4294967296).
     assert (Hsd : sl = first_page (g_g g) s) by (unfold sl; rewrite start_slot_div by auto; reflexivity).
     assert (Hed : el = last_page (g_g g) s) by (unfold el; rewrite end_slot_div by auto; reflexivity).
     assert (Hstep : forall cnts2,
                length cnts2 = length cnts ->
                (forall n, (n < length cnts2)%nat ->
-                          nth n cnts2 0 = tcount (g_g g) (Z.of_nat n) (Ldone ++ [s]) mod 65536) ->
+                          nth n cnts2 0 = tcount (g_g g) (Z.of_nat n) (Ldone ++ [s]) mod 4294967296) ->
                exists cnts', fold_left (vcount_one g) (pairs L) (Some (cnts2, true)) = Some (cnts', true) /\
                              length cnts' = length cnts /\
                              forall n, (n < length cnts')%nat ->
-                                       nth n cnts' 0 = tcount (g_g g) (Z.of_nat n) (Ldone ++ s :: L) mod 65536).
+                                       nth n cnts' 0 = tcount (g_g g) (Z.of_nat n) (Ldone ++ s :: L) mod 4294967296).
     { intros cnts2 Hl2 Hi2.
       destruct (IH (Ldone ++ [s]) cnts2 ltac:(congruence) Hi2 ltac:(intros s' Hs'; apply Hall; right; auto))
         as (cnts' & E & Hl' & Hi').
@@ -372,7 +372,7 @@ Lemma nth_repeat_Z0 n k : nth k (repeat 0 n) 0 = 0.
 Proof. revert k; induction n as [|n IH]; intros [|k]; cbn; auto. Qed.
 
 Theorem gran_validate_ok gr t :
-  GInv gr t -> Inv2 t -> gr < 65536 ->
+  GInv gr t -> Inv2 t -> gr < 4294967296 ->
   gran_validate (t_gran t) (map (fun b => (b_off b, b_size b)) (live t)) = Some true.
 Proof.
   intros HG HI Hgr. pose proof HG as [HT Hh Hg Hrange _ _ _ Htab].
@@ -414,15 +414,23 @@ Proof.
     destruct (Htab _ _ Hr) as (Hc & _). rewrite Hc. reflexivity.
 Qed.
 
-Theorem tlsf_vam_validate gr size ops :
-  cfg2_ok gr size -> 1 <= gr < 65536 -> Forall op_ok ops -> Forall op_kind_ok ops ->
+(* the page counters are uint32: a page of g bytes has at most g allocations counted on it, so
+   for g < 2^32 no counter wraps and the handler's own validation passes *)
+Theorem tlsf_vam_validate_wide gr size ops :
+  cfg2_ok gr size -> 1 <= gr < 4294967296 -> Forall op_ok ops -> Forall op_kind_ok ops ->
   validate (run (tlsf_init HVam gr size) ops) = Some true.
 Proof.
   intros Hc Hgr Hok Hk.
   destruct (reach_Inv2 HVam gr size ops Hc Hok) as (HT & HI).
-  pose proof (reach_GInv gr size ops (cfg2_cfg _ _ Hc) ltac:(lia) Hok Hk) as HG.
+  pose proof (reach_GInv_wide gr size ops (cfg2_cfg _ _ Hc) ltac:(lia) Hok Hk) as HG.
   apply tlsf_validate; auto. apply (gran_validate_ok gr); auto. lia.
 Qed.
+
+(* the range of granularities of the properties: 1 .. 64 KiB, 64 KiB included *)
+Theorem tlsf_vam_validate gr size ops :
+  cfg2_ok gr size -> 1 <= gr <= 65536 -> Forall op_ok ops -> Forall op_kind_ok ops ->
+  validate (run (tlsf_init HVam gr size) ops) = Some true.
+Proof. intros Hc Hgr. apply tlsf_vam_validate_wide; auto. lia. Qed.
 
 Theorem tlsf_fake_validate gr size ops :
   cfg2_ok gr size -> Forall op_ok ops -> validate (run (tlsf_init HFake gr size) ops) = Some true.
